@@ -38,6 +38,22 @@ func (c *Ctx) baseEnv(st, old *State) *Env {
 	for k, v := range c.paramVals {
 		env.names[k] = v
 	}
+	// positional aliases of the function's own parameters (p0 = receiver for methods)
+	if c.fn != nil {
+		for i, p := range c.fn.Params {
+			if v := c.vals[p]; v != nil {
+				env.names[fmt.Sprintf("p%d", i)] = v
+				// reqparam: the first parameter of type *XxxRequest (RPC handlers)
+				if _, have := env.names["reqparam"]; !have {
+					if pt, ok := p.Type().(*types.Pointer); ok {
+						if n, ok := pt.Elem().(*types.Named); ok && strings.HasSuffix(n.Obj().Name(), "Request") {
+							env.names["reqparam"] = v
+						}
+					}
+				}
+			}
+		}
+	}
 	return env
 }
 
